@@ -29,6 +29,8 @@ Good ==
   \cup { St("removeLast:" \o v \o "<-" \o w, SExpr(Asg(v, Call(Id("remove"), <<Id(w), LastIdx(w)>>)))) : v \in Vars, w \in Vars }
   \cup { St("pass:" \o v, SExpr(Call(Id("wr"), <<Id(v)>>))) : v \in Vars }
   \cup { St("read0:" \o v, SPrint(Idx(Id(v), Num(0)))) : v \in Vars }
+  \cup { St("fresh:" \o v, SExpr(Asg(v, Call(Id("fresh"), <<>>)))) : v \in Vars }                    \* the same constant literal, evaluated again
+  \cup { St("removeLast-write:" \o v, SExpr(IAsg(Call(Id("remove"), <<Id(v), LastIdx(v)>>), Num(0), Fresh))) : v \in Vars }   \* write into a result
   \cup { St("holdlit:" \o v, SExpr(Asg("o", Obj(<<"p", "n">>, <<Id(v), Num(0)>>)))) : v \in Vars }      \* held by a property (object literal)
   \cup { St("holdset:" \o v, SExpr(PAsg(Id("o"), "p", Id(v)))) : v \in Vars }                          \* held by a property (store)
   \cup { St("writeprop", SExpr(IAsg(Prop(Id("o"), "p"), Num(0), Fresh))), St("fromprop:x", SExpr(Asg("x", Prop(Id("o"), "p")))) }
@@ -49,7 +51,7 @@ RECURSIVE RHist(_, _, _)
 RHist(s, i, n) == IF n = 0 THEN <<>> ELSE <<GoodSeq[1 + RandInt(s, i, Len(GoodSeq))]>> \o RHist(s, i + 1, n - 1)
 Randoms == { RHist(SeedProp * 4096 + k, 1, RandLen) : k \in 1..NRandom }
 
-Prelude == << SFun("wr", <<"a">>, <<SExpr(IAsg(Id("a"), Num(0), Fresh))>>), SVar("q", Num(7)),
+Prelude == << SFun("wr", <<"a">>, <<SExpr(IAsg(Id("a"), Num(0), Fresh))>>), SVar("q", Num(7)), SFun("fresh", <<>>, <<SReturn(Arr(<<Num(7), Num(8), Num(9)>>))>>),
               SVar("x", Arr(<<Num(1), Num(2), Num(3)>>)), SVar("y", Arr(<<Num(4), Num(5)>>)), SVar("o", Obj(<<"p">>, <<Arr(<<Num(9)>>)>>)), Show >>
 RECURSIVE Body(_)
 Body(h) == IF h = <<>> THEN <<>> ELSE <<h[1].s, Show>> \o Body(Tail(h))
